@@ -11,6 +11,16 @@ theorem finish_tot {s sx : St} (L : Le s sx) (i exp v T Γx) :
   obtain ⟨s', h, l⟩ := finish_le i exp v T Γx sx
   exact ⟨_, _, s', h, L.trans l⟩
 
+theorem le_to_err {s X : St} {d} (h : Le s X) : Le s (errExpr (X.diag d)).2 := h.trans ((le_diag _ _).trans (le_errExpr _))
+theorem le_to_push {s X : St} {c} (h : Le s X) : Le s (X.push c) := h.trans (le_push _ _)
+theorem le_to_record {s X : St} {i t} (h : Le s X) : Le s (X.record i t) := h.trans (le_record _ _ _)
+theorem le_to_fresh {s X : St} (h : Le s X) : Le s X.fresh.2 := h.trans (le_fresh _)
+theorem le_to_inst {s X : St} {t} (h : Le s X) : Le s (X.inst t).2 := h.trans (le_inst _ _)
+theorem le_to_mark {s X : St} (h : Le s X) : Le s X.mark := h.trans (le_mark _)
+theorem le_to_diag {s X : St} {d} (h : Le s X) : Le s (X.diag d) := h.trans (le_diag _ _)
+
+macro "le_auto" : tactic => `(tactic| repeat' (first | assumption | exact Le.refl _ | apply le_to_err | apply le_to_push | apply le_to_record | apply le_to_fresh | apply le_to_inst | apply le_to_mark | apply le_to_diag))
+
 def IArm.body : IArm → IExpr
   | .mk _ b => b
 
@@ -18,7 +28,10 @@ def Tot1 (e : IExpr) : Prop := ∀ exp G Γ s, ∃ t Γ' s', go e exp G Γ s = s
 def TotL (es : List IExpr) : Prop :=
   (∀ G Γ s, ∃ ts Γ' s', goL es G Γ s = some (ts, Γ', s') ∧ Le s s') ∧
   (∀ xs G Γ s, ∃ ts Γ' s', goZip es xs G Γ s = some (ts, Γ', s') ∧ Le s s') ∧
-  (∀ exp G Γ s, ∃ ts Γ' s', goBlock es exp G Γ s = some (ts, Γ', s') ∧ Le s s')
+  (∀ exp G Γ s, ∃ ts Γ' s', goBlock es exp G Γ s = some (ts, Γ', s') ∧ Le s s') ∧
+  (∀ el G Γ s, ∃ ts Γ' s', goArr es el G Γ s = some (ts, Γ', s') ∧ Le s s') ∧
+  (∀ G Γ s, ∃ ts Γ' s', goHead es G Γ s = some (ts, Γ', s') ∧ Le s s') ∧
+  (∀ xs G Γ s, ∃ ts Γ' s', goZipTail es xs G Γ s = some (ts, Γ', s') ∧ Le s s')
 def TotA (arms : List IArm) : Prop :=
   ∀ sty exp armTy G Γ s, ∃ tas Γ' s', goArms arms sty exp armTy G Γ s = some (tas, Γ', s') ∧ Le s s'
 
@@ -73,7 +86,7 @@ theorem go_le : ∀ e, Tot1 e := by
     rw [go]
     split
     · exact finish_tot (Le.refl _) _ _ _ _ _
-    · obtain ⟨ts, Γ1, s1, h, l⟩ := ih.2.2 exp G (pushScope Γ) s
+    · obtain ⟨ts, Γ1, s1, h, l⟩ := ih.2.2.1 exp G (pushScope Γ) s
       simp only [h]
       exact finish_tot (l.trans (le_popScope _ _)) _ _ _ _ _
   -- ite
@@ -212,16 +225,75 @@ theorem go_le : ∀ e, Tot1 e := by
       obtain ⟨tas, Γ2, s2, h2, l2⟩ := iha tsc.ty none s1.fresh.1 G Γ1 s1.fresh.2
       simp only [h2]
       exact finish_tot (l1.trans ((le_fresh _).trans l2)) _ _ _ _ _
+  -- mcall
+  · intro i fi recv m args ihr iha exp G Γ s
+    rw [go]
+    obtain ⟨tr, Γ1, s1, h1, l1⟩ := ihr none G Γ s.mark
+    have l1' : Le s s1 := (le_mark _).trans l1
+    simp only [h1]
+    cases hl : lookupInherent G tr.ty m with
+    | some mty =>
+      dsimp only
+      obtain ⟨ts, Γ2, s2, h2, l2⟩ := iha.1 G Γ1 s1
+      have l2' : Le s s2 := l1'.trans l2
+      simp only [h2]
+      exact finish_tot (by le_auto) _ _ _ _ _
+    | none =>
+      dsimp only
+      split <;> exact finish_tot (by le_auto) _ _ _ _ _
+  -- scall
+  · intro i fi tyName m args iha exp G Γ s
+    rw [go]
+    cases hn : nominalOf G tyName with
+    | none => dsimp only; exact finish_tot (by le_auto) _ _ _ _ _
+    | some recv0 =>
+      dsimp only
+      split
+      · obtain ⟨t0s, Γ1, s1, h1, l1⟩ := iha.2.2.2.2.1 G Γ s.mark
+        have l1' : Le s s1 := (le_mark _).trans l1
+        simp only [h1]
+        split
+        · exact finish_tot (by le_auto) _ _ _ _ _
+        · split
+          · split
+            · exact finish_tot (by le_auto) _ _ _ _ _
+            · rename_i look rty mty hlook inst ps r hinst hlen
+              obtain ⟨ts, Γ2, s2, h2, l2⟩ := iha.2.2.2.2.2 ps G Γ1
+                ((s1.inst mty).snd.push (Constraint.eq ((tysOf t0s).headD Ty.unit) (ps.headD Ty.unit)))
+              simp only [h2]
+              exact finish_tot (l1'.trans ((le_inst _ _).trans ((le_push _ _).trans (l2.trans (le_record _ _ _))))) _ _ _ _ _
+          · exact finish_tot (by le_auto) _ _ _ _ _
+      · cases hl : lookupInherent G recv0 m with
+        | none => dsimp only; exact finish_tot (by le_auto) _ _ _ _ _
+        | some mty =>
+          dsimp only
+          split
+          · split
+            · exact finish_tot (by le_auto) _ _ _ _ _
+            · rename_i ps ret _ _
+              obtain ⟨ts, Γ2, s2, h2, l2⟩ := iha.2.1 ps G Γ (s.mark.inst mty).2
+              simp only [h2]
+              exact finish_tot ((le_mark _).trans ((le_inst _ _).trans (l2.trans (le_record _ _ _)))) _ _ _ _ _
+          · exact finish_tot (by le_auto) _ _ _ _ _
+  -- array
+  · intro i items ih exp G Γ s
+    rw [go]
+    obtain ⟨ts, Γ1, s1, h1, l1⟩ := ih.2.2.2.1 s.mark.fresh.1 G Γ s.mark.fresh.2
+    simp only [h1]
+    exact finish_tot ((le_mark _).trans ((le_fresh _).trans l1)) _ _ _ _ _
   -- arm
   · intro p body ih; exact ih
   -- []
-  · refine ⟨?_, ?_, ?_⟩
+  · refine ⟨?_, ?_, ?_, ?_, ?_, ?_⟩
     · intro G Γ s; rw [goL]; exact ⟨_, _, _, rfl, Le.refl _⟩
     · intro xs G Γ s; simp only [goZip]; exact ⟨_, _, _, rfl, Le.refl _⟩
     · intro exp G Γ s; rw [goBlock]; exact ⟨_, _, _, rfl, Le.refl _⟩
+    · intro el G Γ s; rw [goArr]; exact ⟨_, _, _, rfl, Le.refl _⟩
+    · intro G Γ s; rw [goHead]; exact ⟨_, _, _, rfl, Le.refl _⟩
+    · intro xs G Γ s; simp only [goZipTail]; exact ⟨_, _, _, rfl, Le.refl _⟩
   -- e :: es
   · intro e es ihe ihes
-    refine ⟨?_, ?_, ?_⟩
+    refine ⟨?_, ?_, ?_, ?_, ?_, ?_⟩
     · intro G Γ s
       rw [goL]
       obtain ⟨t, Γ1, s1, h1, l1⟩ := ihe none G Γ s
@@ -240,9 +312,24 @@ theorem go_le : ∀ e, Tot1 e := by
     · intro exp G Γ s
       rw [goBlock]
       obtain ⟨t, Γ1, s1, h1, l1⟩ := ihe (if es.isEmpty then exp else none) G Γ s
-      obtain ⟨ts, Γ2, s2, h2, l2⟩ := ihes.2.2 exp G Γ1 s1
+      obtain ⟨ts, Γ2, s2, h2, l2⟩ := ihes.2.2.1 exp G Γ1 s1
       simp only [h1, h2]
       exact ⟨_, _, _, rfl, l1.trans l2⟩
+    · intro el G Γ s
+      rw [goArr]
+      obtain ⟨t, Γ1, s1, h1, l1⟩ := ihe none G Γ s
+      obtain ⟨ts, Γ2, s2, h2, l2⟩ := ihes.2.2.2.1 el G Γ1 (s1.push (.eq t.ty el))
+      simp only [h1, h2]
+      exact ⟨_, _, _, rfl, l1.trans ((le_push _ _).trans l2)⟩
+    · intro G Γ s
+      rw [goHead]
+      obtain ⟨t, Γ1, s1, h1, l1⟩ := ihe none G Γ s
+      simp only [h1]
+      exact ⟨_, _, _, rfl, l1⟩
+    · intro xs G Γ s
+      cases xs with
+      | nil => simp only [goZipTail]; exact ⟨_, _, _, rfl, Le.refl _⟩
+      | cons x xs => simp only [goZipTail]; exact ihes.2.1 xs G Γ s
   -- [] arms
   · intro sty exp armTy G Γ s; rw [goArms]; exact ⟨_, _, _, rfl, Le.refl _⟩
   -- arm :: arms
@@ -269,14 +356,17 @@ theorem go_le : ∀ e, Tot1 e := by
 
 theorem goL_le : ∀ es, TotL es
   | [] => by
-    refine ⟨?_, ?_, ?_⟩
+    refine ⟨?_, ?_, ?_, ?_, ?_, ?_⟩
     · intro G Γ s; rw [goL]; exact ⟨_, _, _, rfl, Le.refl _⟩
     · intro xs G Γ s; simp only [goZip]; exact ⟨_, _, _, rfl, Le.refl _⟩
     · intro exp G Γ s; rw [goBlock]; exact ⟨_, _, _, rfl, Le.refl _⟩
+    · intro el G Γ s; rw [goArr]; exact ⟨_, _, _, rfl, Le.refl _⟩
+    · intro G Γ s; rw [goHead]; exact ⟨_, _, _, rfl, Le.refl _⟩
+    · intro xs G Γ s; simp only [goZipTail]; exact ⟨_, _, _, rfl, Le.refl _⟩
   | e :: es => by
     have ihe := go_le e
     have ihes := goL_le es
-    refine ⟨?_, ?_, ?_⟩
+    refine ⟨?_, ?_, ?_, ?_, ?_, ?_⟩
     · intro G Γ s
       rw [goL]
       obtain ⟨t, Γ1, s1, h1, l1⟩ := ihe none G Γ s
@@ -295,9 +385,24 @@ theorem goL_le : ∀ es, TotL es
     · intro exp G Γ s
       rw [goBlock]
       obtain ⟨t, Γ1, s1, h1, l1⟩ := ihe (if es.isEmpty then exp else none) G Γ s
-      obtain ⟨ts, Γ2, s2, h2, l2⟩ := ihes.2.2 exp G Γ1 s1
+      obtain ⟨ts, Γ2, s2, h2, l2⟩ := ihes.2.2.1 exp G Γ1 s1
       simp only [h1, h2]
       exact ⟨_, _, _, rfl, l1.trans l2⟩
+    · intro el G Γ s
+      rw [goArr]
+      obtain ⟨t, Γ1, s1, h1, l1⟩ := ihe none G Γ s
+      obtain ⟨ts, Γ2, s2, h2, l2⟩ := ihes.2.2.2.1 el G Γ1 (s1.push (.eq t.ty el))
+      simp only [h1, h2]
+      exact ⟨_, _, _, rfl, l1.trans ((le_push _ _).trans l2)⟩
+    · intro G Γ s
+      rw [goHead]
+      obtain ⟨t, Γ1, s1, h1, l1⟩ := ihe none G Γ s
+      simp only [h1]
+      exact ⟨_, _, _, rfl, l1⟩
+    · intro xs G Γ s
+      cases xs with
+      | nil => simp only [goZipTail]; exact ⟨_, _, _, rfl, Le.refl _⟩
+      | cons x xs => simp only [goZipTail]; exact ihes.2.1 xs G Γ s
 
 theorem goArms_le : ∀ arms, TotA arms
   | [] => by intro sty exp armTy G Γ s; rw [goArms]; exact ⟨_, _, _, rfl, Le.refl _⟩
